@@ -44,7 +44,10 @@ AddSite == /\ Len(F[1]) < MaxN
            /\ \E r \in [1..NF -> UNION { SiteRecs(f) : f \in 1..NF }] :
                  /\ \A f \in 1..NF : r[f] \in SiteRecs(f)
                  /\ F' = [f \in 1..NF |-> Append(F[f], r[f])]
-Relist == \E f \in 1..NF : \E ps \in PhaseSets(F[f]) : \E pi \in Perms(P) \ {Ident} :
+(* generators of the symmetric group: the adjacent transpositions *)
+Swap(i) == [k \in 1..P |-> IF k = i THEN i + 1 ELSE IF k = i + 1 THEN i ELSE k]
+Gens == { Swap(i) : i \in 1..(P - 1) }
+Relist == \E f \in 1..NF : \E ps \in PhaseSets(F[f]) : \E pi \in Gens :
               F' = [F EXCEPT ![f] = Relabel(F[f], ps, pi)]
 Next == AddSite \/ Relist
 Spec == Init /\ [][Next]_vars
